@@ -514,7 +514,11 @@ class Ev:
         for p, a in zip(r["params"], args):
             self.bind(p, a, env)
         saved = (self.guards, self.loops, self.path)
-        self.guards, self.loops, self.path = [], [], list(self.path) if depth else []
+        if depth and any(isinstance(a, Arr) for a in args) and (self.loops or self.guards):
+            # a helper handed an array under construction (`&mut b`) writes into it in the caller's context: its writes carry the caller's loops and guards
+            self.guards, self.loops, self.path = list(self.guards), list(self.loops), list(self.path)
+        else:
+            self.guards, self.loops, self.path = [], [], list(self.path) if depth else []
         try:
             v = strip_early(self.eval(r["body"], env, depth + 1))
             return self.collapse(v) if collapse else v
@@ -839,7 +843,9 @@ class Ev:
                     self.bind(s["pat"], v, env)
             elif s["k"] in ("expr", "semi"):
                 x = s["e"]
-                if x.get("k") == "assign":
+                if x.get("k") in ("assign", "assignop") and strip_refs(x["l"]).get("k") == "index":
+                    self.exec_stmt(x, env, depth)          # an indexed write (into a local array, or one handed in by `&mut`)
+                elif x.get("k") == "assign":
                     self.assign(x["l"], self.eval(x["r"], env, depth), env)
                 elif x.get("k") == "assignop":
                     cur = self.eval(x["l"], env, depth)
@@ -902,6 +908,8 @@ class Ev:
                         raise Return(Alt([(g, v.value) for g, v in out]))
                     out = [(g, EarlyRet(v.value) if isinstance(v, Return) else v) for g, v in out]
                     return out[0][1] if len(out) == 1 else self.collapse(Alt(out))
+                elif x.get("k") in ("if", "match") and x.get("ty") in ("()", None) and self.loops:
+                    self.exec_stmt(x, env, depth)          # inside a summarised loop (a helper called from a loop body): effects are recorded under the branch's guard
                 elif x.get("k") in ("loop",):
                     raise Unsupported("statement-level control flow (%s) at line %s" % (x["k"], x.get("ln")))
                 elif x.get("k") == "mcall" and x["m"] == "clone_from" and x["recv"].get("k") == "path" and x["recv"].get("res") == "local":
@@ -930,6 +938,10 @@ class Ev:
                                 del self.path[len(self.path) - len(gs):]
                         return Alt(out)
         if "e" in e:
+            if e["e"].get("k") in ("for", "while") or (e["e"].get("k") in ("assign", "assignop") and strip_refs(e["e"]["l"]).get("k") == "index") or \
+                    (e["e"].get("k") in ("if", "match") and e["e"].get("ty") == "()" and self.loops):
+                self.exec_stmt(e["e"], env, depth)         # a unit-valued loop / indexed write in tail position is a statement
+                return Sym("unit")
             return self.eval(e["e"], env, depth)
         return Sym("unit")
 
@@ -1248,17 +1260,17 @@ class Ev:
                 if isinstance(a, Sym) and a.tag[:2] == ("ctor", "None"):
                     return
                 if isinstance(a, Sym) and a.tag[:2] == ("ctor", "Some") and len(a.tag) == 3:
-                    env[rid] = Sym("mut", "insert", vkey(env.get(rid)), (vkey(a.tag[2]),))
+                    env[rid] = Sym("mut", "insert", vkey(env.get(rid)), (vkey(a.tag[2]),), *self.mut_guards())
                     return
                 if isinstance(a, Seq) and getattr(a, "groups", None):
                     cur = env.get(rid)
                     for item in a.groups[1](Poly.atom("i%d" % len(self.loops))):
-                        cur = Sym("mut", "insert", vkey(cur), (vkey(item),))
+                        cur = Sym("mut", "insert", vkey(cur), (vkey(item),), *self.mut_guards())
                     env[rid] = cur
                     return
-                env[rid] = Sym("mut", "extend", vkey(env.get(rid)), (vkey(a),))
+                env[rid] = Sym("mut", "extend", vkey(env.get(rid)), (vkey(a),), *self.mut_guards())
                 return
-            env[rid] = Sym("mut", x["m"], vkey(env.get(rid)), tuple(vkey(self.eval(a, env, depth)) for a in x["args"]))
+            env[rid] = Sym("mut", x["m"], vkey(env.get(rid)), tuple(vkey(self.eval(a, env, depth)) for a in x["args"]), *self.mut_guards())
             return
         if k == "ret":
             if self.loops or self.guards:
@@ -1270,6 +1282,11 @@ class Ev:
         v = self.eval(x, env, depth)
         if isinstance(v, Sym) and v.tag[:1] == ("diverges",) and not self.loops and not self.guards:
             raise Return(v)          # `if c { panic!(..) }` as a statement: the path ends here (outside loops, where execution is per path)
+
+    def mut_guards(self):
+        """The conditions under which a mutation inside a summarised loop body happens (part of the mutated value's identity: `if c { s.insert(x) }` is not
+        `s.insert(x)`); empty outside conditionals."""
+        return (tuple(self.guards),) if self.guards else ()
 
     def carried(self, lhs, val, env):
         """A scalar local declared outside a summarised `for` loop and assigned inside it is loop-carried: after the loop its value is not that of one generic
@@ -1743,7 +1760,18 @@ class Ev:
             if m in ("into_iter", "iter", "cloned", "copied", "by_ref") and not args:
                 return recv
             if m == "enumerate" and not args:
+                ks_ = vkey(recv.src)
+                if isinstance(ks_, tuple) and ks_[:2] == ("sym", "range") and ks_[2] != Poly.const(0).key():
+                    a_ = poly_from_key(ks_[2])      # over a range the index variable is the value itself: the position is value - start
+                    return Seq(recv.src, lambda idx, f0=recv.fn, a_=a_: Tup([idx - a_, f0(idx)]), True)
                 return Seq(recv.src, lambda idx, f0=recv.fn: Tup([idx, f0(idx)]), True)
+            if m == "take" and len(args) == 1 and isinstance(args[0], Poly) and args[0].order == 0:
+                ks_ = vkey(recv.src)
+                if isinstance(ks_, tuple) and ks_[:2] == ("sym", "range"):
+                    pass      # min(end, start + n) is not a polynomial: left to the opaque adapter below
+                elif not (isinstance(ks_, tuple) and ks_[:2] in (("sym", "skip"), ("sym", "zip"), ("sym", "filter"), ("sym", "flat_map"), ("sym", "zipidx"), ("sym", "revrange"))):
+                    # the first n elements of a container, by position: positions 0..n (n <= len, as for the index loop `for j in 0..n { c[j] }`)
+                    return Seq(Sym("range", Poly.const(0).key(), args[0].key()), recv.fn, recv.enumerated)
             if m == "map" and len(args) == 1:
                 f = args[0]
                 if isinstance(f, Clo):
@@ -1764,6 +1792,9 @@ class Ev:
                     # collecting Results: Ok(all payloads) unless one is Err, which is returned — the same convention as `push(f(x)?)` with `?` on an opaque result
                     return Sym("ctor", "Ok", Coll(recv))
                 return Coll(recv)
+            if m == "skip" and len(args) == 1 and isinstance(args[0], Poly) and args[0].order == 0 and isinstance(vkey(recv.src), tuple) and vkey(recv.src)[:2] == ("sym", "range"):
+                ks_ = vkey(recv.src)          # positions a..b without the first k: a+k..b, element function unchanged (it takes the position itself)
+                return Seq(Sym("range", (poly_from_key(ks_[2]) + args[0]).key(), ks_[3]), recv.fn, recv.enumerated)
             if m == "skip" and len(args) == 1 and isinstance(args[0], Poly) and not recv.enumerated:
                 return Seq(Sym("skip", vkey(recv.src), args[0].key()), lambda idx, f0=recv.fn, n=args[0]: f0(idx + n))
             if m in ("all", "any") and len(args) == 1 and isinstance(args[0], Clo):
@@ -1801,6 +1832,17 @@ class Ev:
                     return Sym("repeat", count.key(), vkey(args[0]), vkey(body))      # same canonical form as a counted while loop
                 tag = ("fold", src, vkey(args[0]), vkey(body))
                 return Poly.atom(tag) if isinstance(args[0], Poly) else Sym(*tag)
+            if m == "eq" and len(args) == 1 and isinstance(args[0], (Seq, Coll)) and not recv.enumerated:
+                # Iterator::eq: the same number of items and pairwise equal in order — `a.len() == b.len() && a.iter().zip(b.iter()).all(|(x, y)| x == y)`
+                o = args[0].seq if isinstance(args[0], Coll) else args[0]
+                if not o.enumerated:
+                    q = Poly.atom("q%d" % len(self.loops))
+                    same_len = cmp_sym("Eq", Poly.atom(("len", vkey(recv.src), None)), Poly.atom(("len", vkey(o.src), None)), True)
+                    pairwise = quant("forall", Sym("zip", vkey(recv.src), vkey(o.src)), eq_sym(recv.fn(q), o.fn(q)))
+                    if isinstance(same_len, Sym) and same_len.tag == ("bool", "true"):
+                        return pairwise
+                    a_, b_ = sorted([vkey(same_len), vkey(pairwise)], key=repr)
+                    return Sym("and", a_, b_)
             if m == "flat_map" and len(args) == 1 and isinstance(args[0], Clo) and not recv.enumerated:
                 # `seq.flat_map(|x| [a(x), b(x)])`: a fixed group of items per element; consumed by `extend` as that many inserts per element
                 f = args[0]
@@ -1976,6 +2018,11 @@ class Ev:
                 # x.map_or(true, |_| false) is x.is_none(); x.map_or(false, |_| true) is x.is_some()
                 isn = Sym("m", "is_none", vkey(recv), ())
                 return isn if args[0].tag[1] == "true" else Sym("not", vkey(isn))
+            if m in ("map_or", "is_some_and", "is_none_or") and (e["recv"].get("ty") or "").replace("&", "").startswith("std::option::Option<"):
+                # the two paths of `match o { Some(v) => f(v), None => default }`
+                g = ("arm", ("Some", "_"), vkey(recv))
+                dflt = args[0] if m == "map_or" else Sym("bool", "false" if m == "is_some_and" else "true")
+                return Alt([(g, body), (("not", g), dflt)])
             return Sym("optcase", m, vkey(recv), tuple(vkey(a) for a in args[:-1]), vkey(body))
         if m in ("eq", "ne") and len(args) == 1 and not isinstance(recv, (Poly, Rec)) and not isinstance(args[0], (Poly, Rec)) and self.facts.fn(d) is None:
             return eq_sym(recv, args[0]) if m == "eq" else Sym("not", vkey(eq_sym(recv, args[0])))      # a.eq(&b) is a == b
@@ -2105,6 +2152,9 @@ def arm_guard(pat, scrut):
         op = {"Less": "Lt", "Equal": "Eq", "Greater": "Gt"}.get(name)
         if op:
             return ("if", vkey(cmp_sym(op, poly_from_key(scrut.tag[1]), Poly.const(0), True)))
+    if pat.get("k") == "lit" and pat.get("lk") == "int" and isinstance(scrut, Poly) and scrut.order == 0:
+        # `match m { 0 => .. }` tests `m == 0`
+        return ("if", vkey(cmp_sym("Eq", scrut, Poly.const(-int(pat["v"]) if pat.get("neg") else int(pat["v"])), True)))
     if pat.get("k") == "lit" and str(pat.get("v")) in ("true", "false"):
         g = guard_of(scrut)                       # `match flag { true => .., false => .. }` is `if flag {..} else {..}`
         return g if str(pat["v"]) == "true" else neg_guard(g)
